@@ -251,3 +251,85 @@ Proof. vm_compute. reflexivity. Qed.
 Example C18_multichar_example :
   str_split [124;124] [97;124;124;124;98;124;124]%Z = [[97]; [124;98]; []]%Z.
 Proof. vm_compute. reflexivity. Qed.
+
+(* (placed last: the imports below shadow names of Csv.v such as load_chunks) *)
+From RxVerif Require Import Container.Json Container.JsonLines Container.C19EndToEnd Container.C18EndToEnd.
+(* ---------------------------------------------------------------------------------------------
+   END TO END at the level of BYTES, no premise about numbers, codec or compression left (C18EndToEnd.v): rows -> CSV text
+   (Csv.v, concrete int / float / bool layers) -> UTF-8 incremental codec model of C17 -> no compression or the gzip model of
+   C16 (stored-block compressor of the model, full inflate) -> ANY byte re-chunking / reading in pieces of any size n ->
+   incremental decode -> load = the rows.  New premises are on the data only: separator, escape, column names and string
+   fields are Unicode scalar values (cp_ok).  load_byte_chunks answers ([], false) when a stage fails.
+   --------------------------------------------------------------------------------------------- *)
+Theorem C18_end_to_end_bytes_any_rechunking_plain : forall (p esc : Z),
+  p <> quote -> p <> esc -> esc <> quote ->
+  ~ float_char p ->
+  (forall b, ~ In p (str_bool b)) ->
+  p <> newline -> esc <> newline ->
+  cp_ok p -> cp_ok esc ->
+  forall (types : list ty) (names : list (list Z)) (rows : list (list (value okfl))) (r : list (list Z)),
+  Forall text_no_nl names ->
+  Forall (fun row => Forall2 field_ok types row /\ row <> [] /\ Forall value_no_nl row) rows ->
+  Forall (Forall cp_ok) names -> Forall (Forall value_cp_ok) rows ->
+  concat r = dump_bytes id_compress p esc names rows ->
+  load_byte_chunks id_decompress p esc types r = (rows, true).
+Proof. exact C18_e2e_bytes_any_rechunking_plain. Qed.
+Print Assumptions C18_end_to_end_bytes_any_rechunking_plain.
+Theorem C18_end_to_end_bytes_file_read_plain : forall (p esc : Z),
+  p <> quote -> p <> esc -> esc <> quote ->
+  ~ float_char p ->
+  (forall b, ~ In p (str_bool b)) ->
+  p <> newline -> esc <> newline ->
+  cp_ok p -> cp_ok esc ->
+  forall (types : list ty) (names : list (list Z)) (rows : list (list (value okfl))) (n : nat),
+  Forall text_no_nl names ->
+  Forall (fun row => Forall2 field_ok types row /\ row <> [] /\ Forall value_no_nl row) rows ->
+  Forall (Forall cp_ok) names -> Forall (Forall value_cp_ok) rows ->
+  load_byte_chunks id_decompress p esc types (JsonLines.file_read Z n (dump_bytes id_compress p esc names rows)) = (rows, true).
+Proof. exact C18_e2e_bytes_file_read_plain. Qed.
+Print Assumptions C18_end_to_end_bytes_file_read_plain.
+Theorem C18_end_to_end_bytes_any_rechunking_gzip : forall (p esc : Z),
+  p <> quote -> p <> esc -> esc <> quote ->
+  ~ float_char p ->
+  (forall b, ~ In p (str_bool b)) ->
+  p <> newline -> esc <> newline ->
+  cp_ok p -> cp_ok esc ->
+  forall (types : list ty) (names : list (list Z)) (rows : list (list (value okfl))) (r : list (list Z)),
+  Forall text_no_nl names ->
+  Forall (fun row => Forall2 field_ok types row /\ row <> [] /\ Forall value_no_nl row) rows ->
+  Forall (Forall cp_ok) names -> Forall (Forall value_cp_ok) rows ->
+  concat r = dump_bytes gz_comp p esc names rows ->
+  load_byte_chunks gz_decomp p esc types r = (rows, true).
+Proof. exact C18_e2e_bytes_any_rechunking_gzip. Qed.
+Print Assumptions C18_end_to_end_bytes_any_rechunking_gzip.
+Theorem C18_end_to_end_bytes_file_read_gzip : forall (p esc : Z),
+  p <> quote -> p <> esc -> esc <> quote ->
+  ~ float_char p ->
+  (forall b, ~ In p (str_bool b)) ->
+  p <> newline -> esc <> newline ->
+  cp_ok p -> cp_ok esc ->
+  forall (types : list ty) (names : list (list Z)) (rows : list (list (value okfl))) (n : nat),
+  Forall text_no_nl names ->
+  Forall (fun row => Forall2 field_ok types row /\ row <> [] /\ Forall value_no_nl row) rows ->
+  Forall (Forall cp_ok) names -> Forall (Forall value_cp_ok) rows ->
+  load_byte_chunks gz_decomp p esc types (JsonLines.file_read Z n (dump_bytes gz_comp p esc names rows)) = (rows, true).
+Proof. exact C18_e2e_bytes_file_read_gzip. Qed.
+Print Assumptions C18_end_to_end_bytes_file_read_gzip.
+(* the usual separators with the backslash as escape satisfy every side condition; two rows with a non-ASCII string holding
+   the separator and a quote, read back in pieces of 1 and 5 bytes, both compression settings; a file cut inside a
+   4-byte character is refused *)
+Example C18_end_to_end_example :
+  (forall p, In p [44; 59; 9; 124]%Z ->
+     p <> quote /\ p <> 92%Z /\ 92%Z <> quote /\ ~ float_char p /\ (forall b, ~ In p (str_bool b)) /\ p <> newline /\ 92%Z <> newline
+     /\ cp_ok p /\ cp_ok 92%Z)
+  /\ map (fun n => show (load_byte_chunks id_decompress 44%Z 92%Z ex_types
+                          (JsonLines.file_read Z n (dump_bytes id_compress 44%Z 92%Z ex_names ex_rows)))) [1; 5]%nat
+     = [show (ex_rows, true); show (ex_rows, true)]
+  /\ map (fun n => show (load_byte_chunks gz_decomp 44%Z 92%Z ex_types
+                          (JsonLines.file_read Z n (dump_bytes gz_comp 44%Z 92%Z ex_names ex_rows)))) [1; 5]%nat
+     = [show (ex_rows, true); show (ex_rows, true)]
+  /\ snd (load_byte_chunks id_decompress 44%Z 92%Z ex_types [firstn 51 (dump_bytes id_compress 44%Z 92%Z ex_names ex_rows)]) = false.
+Proof.
+  exact (conj C18_e2e_side_conditions_ok (conj C18_e2e_plain_example (conj C18_e2e_gzip_example C18_e2e_bad_bytes_example))).
+Qed.
+
